@@ -1492,6 +1492,15 @@ namespace bloch::compiler {
     // Types
 
     std::unique_ptr<Type> Parser::parseType(bool allowEmptyTypeArguments) {
+        // parseType and parseTypeArgumentList call each other: 'A<A<A<...>>>' tens of thousands
+        // deep overflowed the stack; a type this deep is refused later anyway
+        struct TypeDepth {
+            int& depth;
+            explicit TypeDepth(int& d) : depth(d) { ++depth; }
+            ~TypeDepth() { --depth; }
+        } nesting(m_typeDepth);
+        if (m_typeDepth > 64)
+            reportError("type is nested too deeply");
         std::unique_ptr<Type> baseType;
         if (check(TokenType::Void)) {
             (void)advance();
